@@ -72,6 +72,8 @@ def gen(n, perm):
     o.append("func (f *%s) Filter(w *ecs.World, t []ecs.Entity) ecs.Filter { return f.f.Filter(w, t...) }" % fname)
     o.append("func (f *%s) Query(w *ecs.World, t []ecs.Entity, withRel bool) qres {\n\tq := f.f.Query(w, t...)\n\tr := qres{count: q.Count(), hasRel: withRel}\n\tfor q.Next() {\n\t\tr.ents = append(r.ents, q.Entity())\n\t\t%s := q.Get()\n\t\tr.ptrs = append(r.ptrs, []unsafe.Pointer{%s})\n\t\tif withRel {\n\t\t\tr.rel = append(r.rel, q.Relation())\n\t\t}\n\t}\n\treturn r\n}" % (
         fname, ", ".join(vars_), ptrs))
+    o.append("func (f *%s) QuerySplit(w *ecs.World, t []ecs.Entity, withRel bool, k int, between func()) qres {\n\tq := f.f.Query(w, t...)\n\tr := qres{count: q.Count(), hasRel: withRel}\n\tfor q.Next() {\n\t\tr.ents = append(r.ents, q.Entity())\n\t\t%s := q.Get()\n\t\tr.ptrs = append(r.ptrs, []unsafe.Pointer{%s})\n\t\tif withRel {\n\t\t\tr.rel = append(r.rel, q.Relation())\n\t\t}\n\t\tif len(r.ents) == k {\n\t\t\tbetween()\n\t\t}\n\t}\n\tif len(r.ents) < k {\n\t\tbetween() // fewer entities than k: the builder call comes after the query has ended\n\t}\n\treturn r\n}" % (
+        fname, ", ".join(vars_), ptrs))
     return "\n".join(o) + "\n"
 
 print("// Code generated by gen_c18.py. DO NOT EDIT.\n")
